@@ -110,6 +110,17 @@ def run(w: World, rep: Report):
     ok = 'len(b1)==len(b2)' in txt and "int.from_bytes(xor(b1,b2),'little')==0" in txt and ' or ' not in ast.unparse(bas.node.body[-1])
     rep.check('C04.R1b', 'functions.bytes_are_same|length-and-xor', ok, line=bas.node.lineno, file=REL,
               why='' if ok else 'bytes_are_same no longer requires equal length and an all-zero xor')
+    # a proof that validated once must validate again: the VM side keeps no state between runs
+    from .report import depend
+    depend(rep, w, 'rules_c19', ('C19.R2',), 'C04.TD19',
+           'no handler writes process-global state (C19.R2 re-evaluated): the verdict for a proof does not '
+           'depend on earlier runs', floor=10)
+    depend(rep, w, 'rules_c05', ('C05.R4',), 'C04.TD5',
+           'a leaf commits to the byte code of its script: Script.commitment() is the hash of the current bytes '
+           '(C05.R4 re-evaluated)', floor=1)
+    depend(rep, w, 'rules_c11', ('C11.R6',), 'C04.TD11',
+           'the assembler the tree builders call leaves its inputs alone (C11.R6 re-evaluated): a token list or '
+           'macro table reused between fillers/leaves assembles to the same thing every time', floor=2)
     rep.explanation = (
         'Decides the binding clause of C04 in its structural form: in OP_MERKLEVAL the supplied script reaches '
         'OP_EVAL only after a verifying comparison with the tape\'s 32-byte root, with nothing in between and '
